@@ -212,6 +212,15 @@ def evaluate__map_merge(self: XPathFunction, context: ta.ContextType = None) -> 
     if self.context is not None:
         context = self.context
 
+    def combine(v1: Any, v2: Any) -> list[Any]:
+        # Sequence concatenation into a new list: never extend the value of an operand
+        result = list(v1) if isinstance(v1, list) else [v1]
+        if isinstance(v2, list):
+            result.extend(v2)
+        else:
+            result.append(v2)
+        return result
+
     duplicates = 'use-first'
     if len(self) > 1:
         options: XPathMap = self.get_argument(context, index=1, required=True, cls=XPathMap)
@@ -237,10 +246,7 @@ def evaluate__map_merge(self: XPathFunction, context: ta.ContextType = None) -> 
                     items.pop(k1)  # remove before to replace the key
                     items[k1] = v
                 elif duplicates == 'combine':
-                    try:
-                        items[k1].append(v)
-                    except AttributeError:
-                        items[k1] = [items[k1], v]
+                    items[k1] = combine(items[k1], v)
                 continue
 
             # TODO: too slow. An alternative idea is to couple with the type
@@ -253,10 +259,7 @@ def evaluate__map_merge(self: XPathFunction, context: ta.ContextType = None) -> 
                         items.pop(k2)  # remove before to replace the key
                         items[k1] = v
                     elif duplicates == 'combine':
-                        try:
-                            items[k2].append(v)
-                        except AttributeError:
-                            items[k2] = [items[k2], v]
+                        items[k2] = combine(items[k2], v)
                     break
             else:
                 items[k1] = v
